@@ -11,12 +11,12 @@ structure CQ where
   deriving DecidableEq, Repr
 
 namespace CQ
-instance : Add CQ := ⟨fun a b => ⟨a.re + b.re, a.im + b.im⟩⟩
+instance addI : Add CQ := ⟨fun a b => ⟨a.re + b.re, a.im + b.im⟩⟩
 instance : Sub CQ := ⟨fun a b => ⟨a.re - b.re, a.im - b.im⟩⟩
 instance : Neg CQ := ⟨fun a => ⟨-a.re, -a.im⟩⟩
-instance : Mul CQ := ⟨fun a b => ⟨a.re * b.re - a.im * b.im, a.re * b.im + a.im * b.re⟩⟩
-instance : OfNat CQ 0 := ⟨⟨0, 0⟩⟩
-instance : OfNat CQ 1 := ⟨⟨1, 0⟩⟩
+instance mulI : Mul CQ := ⟨fun a b => ⟨a.re * b.re - a.im * b.im, a.re * b.im + a.im * b.re⟩⟩
+instance zeroI : OfNat CQ 0 := ⟨⟨0, 0⟩⟩
+instance oneI : OfNat CQ 1 := ⟨⟨1, 0⟩⟩
 def conj (a : CQ) : CQ := ⟨a.re, -a.im⟩
 def ofRat (r : Rat) : CQ := ⟨r, 0⟩
 def I : CQ := ⟨0, 1⟩
